@@ -1,5 +1,6 @@
 import HqModel.Base.Proto
 import HqModel.Journal.Model
+import HqModel.Journal.Prune2
 import HqModel.Journal.File
 import HqModel.Journal.Spec
 /-!
@@ -274,7 +275,7 @@ def step (s : DState) : List String → DState × List String
   | ["prune", k, lj, lw] =>
     match k.toNat?, parseNatList lj, parseNatList lw with
     | some k, some lj, some lw =>
-      let p := prune lj lw ((s.J.toList.take k).map (·.1))
+      let p := prune2 lj lw ((s.J.toList.take k).map (·.1))
       ({ s with P := p }, showPruned p)
     | _, _, _ => (s, ["out !bad-op"])
   | ["sprune", k, lj, lw, k2] =>
@@ -282,7 +283,7 @@ def step (s : DState) : List String → DState × List String
     match k.toNat?, parseNatList lj, parseNatList lw, k2.toNat? with
     | some k, some lj, some lw, some k2 =>
       let all := s.J.toList.map (·.1)
-      (s, showPruned (prune lj lw (all.take k) ++ (all.drop k).take (k2 - k)))
+      (s, showPruned (prune2 lj lw (all.take k) ++ (all.drop k).take (k2 - k)))
     | _, _, _, _ => (s, ["out !bad-op"])
   | "papp" :: rest =>
     match parseRecord rest with
@@ -291,7 +292,7 @@ def step (s : DState) : List String → DState × List String
   | ["pprune", lj, lw] =>
     match parseNatList lj, parseNatList lw with
     | some lj, some lw =>
-      let p := prune lj lw s.P
+      let p := prune2 lj lw s.P
       ({ s with P := p }, showPruned p)
     | _, _ => (s, ["out !bad-op"])
   | ["prestore"] => (s, doRestoreList s.P)
